@@ -2,7 +2,7 @@ import CalVerif.Prim.Res
 /-! Model of the VBA extraction core of calamine (property C18).
 
     * `decompress`  mirrors `src/cfb.rs  decompress_stream` (MS-OVBA 2.4.1 decompression), after the
-      D16 fix (the `'chunk` loop also stops on `chunk_len > chunk_size`).
+      D16 fix (the `'chunk` loop also stops on `chunk_len > chunk_size`) and the D34 robustness fix.
     * `dirWalk`     mirrors `src/vba.rs  read_dir_information` + `Reference::from_stream` + `read_modules`
       over the bytes of the decompressed `dir` stream.
     * `project`     mirrors `VbaProject::from_cfb` given a lookup of the compound file's streams.
@@ -20,7 +20,8 @@ import CalVerif.Prim.Res
       bytes 0x23/0x2A/0x5C/0x43 and never part of a multi-byte sequence (all Windows/ISO single-byte pages,
       932, 936, 949, 950, 65001; not UTF-16 and ISO-2022); `decode_all` strips a leading BOM of the code page's own
       encoding only (after the `decode_all` fix), so for 65001 a name that is exactly EF BB BF is outside the model.
-    Every Rust operation that can panic is an explicit `panic` here (ledger D34 lists them). -/
+    After the robustness fixes (ledger D34: /repo 3510bc7, a92e839) none of the modelled functions contains a panic
+    site: every malformed input is an `err` (`decompress_no_panic`, `dirWalk_no_panic`). -/
 
 namespace Ovba
 
@@ -35,23 +36,17 @@ def bitCount? (d : Nat) : Option Nat := (List.range' 4 12).find? (fun i => decid
 /-- the same with the `unwrap` resolved for the range where it cannot fail (`d ≤ 32768`) -/
 def bitCount (d : Nat) : Nat := (bitCount? d).getD 16
 
-/-- The copy of one copy token:
+/-- The copy of one copy token (after the guard `offset > res.len()`):
     ```
-    while len > offset { buf[..offset].copy_from_slice(&res[res.len() - offset..]); res.extend_from_slice(&buf[..offset]); len -= offset; }
-    buf[..len].copy_from_slice(&res[res.len() - offset..res.len() - offset + len]); res.extend_from_slice(&buf[..len]);
+    while len > offset { res.extend_from_within(res.len() - offset..); len -= offset; }
+    res.extend_from_within(res.len() - offset..res.len() - offset + len);
     ```
-    `buf` is `[0u8; 4096]`. `out` is `res` reversed, `olen` is `res.len()`. Fuel `len + 1` is always enough (`offset ≥ 1`). -/
+    `out` is `res` reversed, `olen` is `res.len()`. Fuel `len + 1` is always enough (`offset ≥ 1`). -/
 def copyLoop (off : Nat) : Nat → Nat → Bytes → Nat → Res (Bytes × Nat)
   | 0, _, _, _ => .outOfFuel
   | fuel + 1, len, out, olen =>
-    if len > off then
-      if off > 4096 then .panic "decompress_stream: buf[..offset]"
-      else if off > olen then .panic "decompress_stream: res.len() - offset"
-      else copyLoop off fuel (len - off) (out.take off ++ out) (olen + off)
-    else
-      if len > 4096 then .panic "decompress_stream: buf[..len]"
-      else if off > olen then .panic "decompress_stream: res.len() - offset"
-      else .ok ((out.drop (off - len)).take len ++ out, olen + len)
+    if len > off then copyLoop off fuel (len - off) (out.take off ++ out) (olen + off)
+    else .ok ((out.drop (off - len)).take len ++ out, olen + len)
 
 /-- loop state inside one compressed chunk: `rest = s[i..]`, `out = res` reversed, `olen = res.len()` (a `Vec`
     carries its length; the model does too instead of recounting the list), `clen = chunk_len` -/
@@ -71,7 +66,7 @@ def tokenLoop (size start : Nat) : Nat → Nat → St → Res (St × Bool)
     else if flags % 2 = 0 then
       -- literal token: `res.push(s[i]); i += 1; chunk_len += 1;`
       match st.rest with
-      | [] => .panic "decompress_stream: s[i] (literal)"
+      | [] => .err "invalid"                              -- `if i >= s.len() { return Err(invalid("literal token", …)) }`
       | b :: r => tokenLoop size start n (flags / 2) { rest := r, out := b :: st.out, olen := st.olen + 1, clen := st.clen + 1 }
     else
       -- copy token: `let token = read_u16(&s[i..]); i += 2; chunk_len += 2;`
@@ -80,18 +75,20 @@ def tokenLoop (size start : Nat) : Nat → Nat → St → Res (St × Bool)
         let token := u16le lo hi
         let decompLen := st.olen - start
         match bitCount? decompLen with
-        | none => .panic "decompress_stream: bit_count unwrap"
+        | none => .err "invalid"                          -- `.ok_or_else(|| invalid("chunk", …))?`
         | some bc =>
           let lenMask := 0xFFFF >>> bc
           let len := (token &&& lenMask) + 3
           let offset := ((token &&& (0xFFFF ^^^ lenMask)) >>> (16 - bc)) + 1
+          if offset > st.olen then .err "invalid"         -- the copy would start before the beginning of the output
+          else
           match copyLoop offset (len + 1) len st.out st.olen with
           | .ok (out', olen') =>
             tokenLoop size start n (flags / 2) { rest := r, out := out', olen := olen', clen := st.clen + 2 }
           | .err e => .err e
           | .panic p => .panic p
           | .outOfFuel => .outOfFuel
-      | _ => .panic "decompress_stream: read_u16 (copy token)"
+      | _ => .err "invalid"                               -- `if s.len() - i < 2 { return Err(invalid("copy token", …)) }`
 
 /-- `'chunk: loop { if i >= s.len() || chunk_len > chunk_size { break; } let bit_flags = s[i]; i += 1; chunk_len += 1; for … }`
     (the second disjunct is the D16 fix). Each iteration consumes the flag byte, so `rest.length + 1` fuel suffices. -/
@@ -116,16 +113,16 @@ def mainLoop : Nat → Bytes → Bytes → Nat → Res Bytes
   | fuel + 1, rest, out, olen =>
     match rest with
     | [] => .ok out
-    | [_] => .panic "decompress_stream: read_u16 (chunk header)"
+    | [_] => .err "invalid"                               -- `if s.len() - i < 2 { return Err(invalid("chunk header", …)) }`
     | lo :: hi :: r =>
       let header := u16le lo hi
       let size := header &&& 0x0FFF
       let signature := (header &&& 0x7000) >>> 12
       let flag := (header &&& 0x8000) >>> 15
-      if signature ≠ 3 then .panic "decompress_stream: assert_eq!(chunk_signature, 0b011)"
+      if signature ≠ 3 then .err "invalid"                -- `if chunk_signature != 0b011 { return Err(…) }`
       else if flag = 0 then
         -- `res.extend_from_slice(&s[i..i + 4096]); i += 4096;`
-        if r.length < 4096 then .panic "decompress_stream: s[i..i + 4096]"
+        if r.length < 4096 then .err "invalid"
         else mainLoop fuel (r.drop 4096) ((r.take 4096).reverse ++ out) (olen + 4096)
       else
         -- `let start = res.len();`
@@ -138,7 +135,7 @@ def mainLoop : Nat → Bytes → Bytes → Nat → Res Bytes
 /-- `decompress_stream(s)` -/
 def decompress (s : Bytes) : Res Bytes :=
   match s with
-  | [] => .panic "decompress_stream: s[0]"
+  | [] => .err "invalid"                                  -- `if s.is_empty() { return Err(…) }`
   | b :: rest =>
     if b ≠ 0x01 then .err "invalid"           -- CfbError::Invalid { name: "signature", … }
     else
@@ -150,9 +147,9 @@ def decompress (s : Bytes) : Res Bytes :=
 
 /-! ## `dir` stream walk (`src/vba.rs`) -/
 
-/-- `*stream = &stream[n..]` -/
+/-- `skip(stream, n)?` (checked `*stream = &stream[n..]`; a short stream is `Err(Io(UnexpectedEof))`) -/
 def skip (n : Nat) (s : Bytes) : Res Bytes :=
-  if s.length < n then .panic "vba: &stream[n..]" else .ok (s.drop n)
+  if s.length < n then .err "io" else .ok (s.drop n)
 
 /-- `stream.read_u16::<LittleEndian>()?` (short input is `Err(Io)`) -/
 def readU16 (s : Bytes) : Res (Nat × Bytes) :=
@@ -166,10 +163,10 @@ def readU32 (s : Bytes) : Res (Nat × Bytes) :=
   | a :: b :: c :: d :: r => .ok (a.toNat + 256 * b.toNat + 65536 * c.toNat + 16777216 * d.toNat, r)
   | _ => .err "io"
 
-/-- `read_variable_record(r, 1)`: u32 length, then `split_at(len)` (panics when too short) -/
+/-- `read_variable_record(r, 1)`: u32 length, then `split_at(len)` (`Err(Io(UnexpectedEof))` when too short) -/
 def readVar (s : Bytes) : Res (Bytes × Bytes) := do
   let (len, r) ← readU32 s
-  if len > r.length then .panic "vba: read_variable_record split_at" else .ok (r.take len, r.drop len)
+  if len > r.length then .err "io" else .ok (r.take len, r.drop len)
 
 /-- `check_record(id, r)` -/
 def checkRecord (id : Nat) (s : Bytes) : Res Bytes := do
@@ -193,13 +190,13 @@ def knownCodepages : List Nat :=
 def skipCompat (s : Bytes) : Res Bytes :=
   match s with
   | a :: b :: _ => if u16le a b = 0x004A then skip 10 s else .ok s
-  | _ => .panic "vba: &stream[0..2]"
+  | _ => .err "io"
 
 /-- `XlsEncoding::from_codepage(read_u16(&stream[6..8]))?` -/
 def readCodepage (s : Bytes) : Res Nat :=
   match s.drop 6 with
   | a :: b :: _ => if knownCodepages.contains (u16le a b) then .ok (u16le a b) else .err "codepage"
-  | _ => .panic "vba: &stream[6..8]"
+  | _ => .err "io"
 
 /-- `read_dir_information`: returns the project code page and the rest of the stream -/
 def readDirInformation (s : Bytes) : Res (Nat × Bytes) := do
@@ -396,7 +393,7 @@ def readModuleStreams (lookup : Bytes → Option Bytes) : List Module → Res (L
     match lookup m.streamName with
     | none => .err "streamnotfound"
     | some s =>
-      if m.textOffset > s.length then .panic "vba: &s[m.text_offset..]"
+      if m.textOffset > s.length then .err "io"
       else do
         let raw ← decompress (s.drop m.textOffset)
         let restMods ← readModuleStreams lookup ms
